@@ -430,7 +430,7 @@ func nodeCase(r *rand.Rand, hist map[string]int) (fail string) {
 			fail = fmt.Sprintf("node level panicked: %v", p)
 		}
 	}()
-	topo := r.Intn(5)
+	topo := r.Intn(6)
 	hist[fmt.Sprintf("node-topo-%d", topo)]++
 	w := &nw02{proc: process.New(), wire: map[string]string{}, entered: make(chan int, 64), noFail: topo == 2}
 	defer w.proc.Exit(nil)
@@ -451,6 +451,10 @@ func nodeCase(r *rand.Rand, hist map[string]int) (fail string) {
 		w.wire["0.out[0]"], w.wire["0.out[1]"] = "1.in", "1.in"
 	case 4: // a lone one-to-many node: each output goes to a sink or nowhere
 		kinds = []int{2}
+	case 5: // two different nodes write into ONE in-port (their writes are concurrent)
+		kinds = []int{2, 1, 1, 1}
+		w.wire["0.out[0]"], w.wire["0.out[1]"] = "1.in", "2.in"
+		w.wire["1.out"], w.wire["2.out"] = "3.in", "3.in"
 	}
 	w.kinds = kinds
 	for i, k := range kinds {
@@ -496,6 +500,9 @@ func nodeCase(r *rand.Rand, hist map[string]int) (fail string) {
 	case 4:
 		addSink("0.out[0]")
 		addSink("0.out[1]")
+	case 5:
+		addSink("3.out")
+		addSink("3.error")
 	}
 	for from, to := range w.wire {
 		var n int
